@@ -1,0 +1,35 @@
+//go:build verif
+
+// Verification hook (add-only, compiled only with -tags verif): re-exports the
+// unexported cluster-route ownership helpers for the /verif correspondence harness.
+package calico
+
+import (
+	v3 "github.com/projectcalico/api/pkg/apis/projectcalico/v3"
+	log "github.com/sirupsen/logrus"
+
+	"github.com/projectcalico/calico/libcalico-go/lib/backend/model"
+)
+
+// VerifClusterRoutePolicy re-exports clusterRoutePolicyFromBGPConfig.
+func VerifClusterRoutePolicy(cfg *v3.BGPConfiguration) (ipip, noEncap bool) {
+	p := clusterRoutePolicyFromBGPConfig(cfg, log.NewEntry(log.StandardLogger()))
+	return p.ipip, p.noEncap
+}
+
+// VerifProgramsPool re-exports clusterRoutePolicy.programsPool.
+func VerifProgramsPool(cfg *v3.BGPConfiguration, pool *model.IPPool) bool {
+	return clusterRoutePolicyFromBGPConfig(cfg, log.NewEntry(log.StandardLogger())).programsPool(pool)
+}
+
+// VerifPoolUses re-exports poolUsesIPIP / poolUsesVXLAN.
+func VerifPoolUses(pool *model.IPPool) (ipip, vxlan bool) {
+	return poolUsesIPIP(pool), poolUsesVXLAN(pool)
+}
+
+// VerifKernelFilterStatement re-exports (*client).processIPPool for the BIRD kernel filter
+// (forProgrammingKernel = true, no filterAction).
+func VerifKernelFilterStatement(cfg *v3.BGPConfiguration, pool *model.IPPool, localSubnet string, ipVersion int) string {
+	policy := clusterRoutePolicyFromBGPConfig(cfg, log.NewEntry(log.StandardLogger()))
+	return (&client{}).processIPPool(pool, policy, true, "", localSubnet, ipVersion)
+}
